@@ -131,7 +131,10 @@ impl Engine for TransitionEngine {
         v
     }
     fn rule(&self) -> String {
-        "one-type instance + 2-6 vehicles spawned through the public API (with/without slot visit, different depots incl. overflow) + a sequence over {new_fast, update_vehicle, add_vehicle_to_own_cycle, remove_vehicle, add_vehicle_at_the_end, move_vehicle, replace_cycle(three_opt)} with arguments valid in the reference model; after every step cycles, per-cycle counters, totals, successor, lookup and empty-cycle list are compared with R-CYCLES; finally the transition optimiser is run on the reached transition (same vehicles, consistent, (violation, counter) not worse); distinct = tape digest; non-trivial = the sequence empties a cycle and later adds to / creates a cycle, or involves a vehicle with negative counter, and the optimiser input has >= 2 cycles".to_string()
+        "one-type instance + 2-6 vehicles spawned through the public API (with/without slot visit, different depots incl. overflow) + a sequence over {new_fast, update_vehicle, add_vehicle_to_own_cycle, remove_vehicle, add_vehicle_at_the_end, move_vehicle, replace_cycle(three_opt), two neighbours updated/removed in a row through updated_tours} with arguments valid in the reference model; after every step cycles, per-cycle counters, totals, successor, lookup and empty-cycle list are compared with R-CYCLES; finally the transition optimiser is run on the reached transition (same vehicles, consistent, (violation, counter) not worse); distinct = tape digest; non-trivial = the sequence empties a cycle and later adds to / creates a cycle, or involves a vehicle with negative counter, and the optimiser input has >= 2 cycles".to_string()
+    }
+    fn tolerated_inconclusive_fraction(&self) -> f64 {
+        0.02
     }
     fn assumptions(&self) -> Vec<String> {
         vec!["operations get arguments that are valid in the model (vehicle present/absent as required, cycle index existing, i<j<k<len for 3-opt)".into(), "which empty cycle add_vehicle_to_own_cycle re-uses is left to the implementation".into()]
@@ -202,7 +205,7 @@ impl Engine for TransitionEngine {
             }
             let present: Vec<VehicleIdx> = model.iter().flatten().copied().collect();
             let absent: Vec<VehicleIdx> = ids.iter().copied().filter(|v| !present.contains(v)).collect();
-            let kind = pick_w(f(r, 0), &[1, 3, 3, 4, 3, 4, 3]);
+            let kind = pick_w(f(r, 0), &[1, 3, 3, 4, 3, 4, 3, 4]);
             let descr;
             let res: Result<Option<Transition>, sut::PanicInfo> = match kind {
                 0 => {
@@ -317,6 +320,51 @@ impl Engine for TransitionEngine {
                     }
                     r.map(Some)
                 }
+                7 => {
+                    // two cycle neighbours changed within ONE modification, the way Schedule does
+                    // it: the second call sees the first through `updated_tours`, `old_tours` is
+                    // still the map from before both changes
+                    let cands: Vec<usize> = (0..model.len()).filter(|i| model[*i].len() >= 2).collect();
+                    if cands.is_empty() {
+                        continue;
+                    }
+                    let c = cands[pick(f(r, 1), cands.len())];
+                    let n = model[c].len();
+                    let i = pick(f(r, 2), n);
+                    let (a, b) = (model[c][i], model[c][(i + 1) % n]);
+                    let (first, second) = if pick(f(r, 3), 2) == 0 { (b, a) } else { (a, b) };
+                    let (Some(alt_first), Some(alt_second)) = (alts.get(&first).cloned(), alts.get(&second).cloned()) else { continue };
+                    let remove_second = pick(f(r, 4), 3) == 0;
+                    descr = format!("update_vehicle({}) then {}({}) with updated_tours", first, if remove_second { "remove_vehicle" } else { "update_vehicle" }, second);
+                    let r = sut::catch(|| {
+                        let t1 = t.update_vehicle(first, &alt_first, &empty_map, &tours, &cx.net);
+                        let mut upd: ImHashMap<VehicleIdx, &Tour> = ImHashMap::new();
+                        upd.insert(first, &alt_first);
+                        if remove_second {
+                            t1.remove_vehicle(second, &upd, &tours, &cx.net)
+                        } else {
+                            t1.update_vehicle(second, &alt_second, &upd, &tours, &cx.net)
+                        }
+                    });
+                    if r.is_ok() {
+                        let old = tours.get(&first).unwrap().clone();
+                        tours.insert(first, alt_first.clone());
+                        alts.insert(first, old);
+                        if remove_second {
+                            for cy in model.iter_mut() {
+                                cy.retain(|x| *x != second);
+                                if cy.is_empty() {
+                                    emptied = true;
+                                }
+                            }
+                        } else {
+                            let old2 = tours.get(&second).unwrap().clone();
+                            tours.insert(second, alt_second.clone());
+                            alts.insert(second, old2);
+                        }
+                    }
+                    r.map(Some)
+                }
                 _ => {
                     let cands: Vec<usize> = (0..model.len()).filter(|i| model[*i].len() >= 3).collect();
                     if cands.is_empty() {
@@ -379,8 +427,12 @@ impl Engine for TransitionEngine {
             let stours = sched.get_tours().clone();
             let in_cycles = base.cycles_iter().filter(|c| !c.is_empty()).count();
             optimiser_nontrivial = in_cycles >= 2;
+            // any second cycle (also an empty placeholder) makes the optimiser run its cycle search
+            let needs_child = base.number_of_cycles() >= 2;
             let input = (base.maintenance_violation(), base.maintenance_counter());
-            if optimiser_nontrivial && !self.optimiser_in_process {
+            if needs_child && !self.optimiser_in_process && crate::engine_pipeline::WATCHDOG_EXPIRIES.load(std::sync::atomic::Ordering::SeqCst) >= 4 {
+                o.inconclusive = Some("optimiser not executed: circuit breaker after 4 watchdog expiries in this worker".into());
+            } else if needs_child && !self.optimiser_in_process {
                 // the optimiser can loop forever when a counter is wrong (every fake improvement is
                 // accepted): run it in a killable child that re-evaluates this very tape
                 use crate::engine_pipeline::{run_child, ChildResult};
@@ -394,6 +446,7 @@ impl Engine for TransitionEngine {
                         }
                     }
                     ChildResult::Timeout => {
+                        crate::engine_pipeline::WATCHDOG_EXPIRIES.fetch_add(1, std::sync::atomic::Ordering::SeqCst);
                         o.inconclusive = Some("transition optimiser gave no answer within 20 s".into());
                         o.classes.push("optimiser_timeout".into());
                     }
